@@ -551,7 +551,7 @@ fn parse_init(l: &str) -> Option<InitOp> {
 }
 
 /// C12 oracle for one `init` op: `before`/`after` are full snapshots, `ans` the harness answer.
-fn oracle_init(rec: &mut Recorder, case_rent: (u64, u64), funder: Option<Pubkey>, no_funder: bool, l: &str, ans: &str, before: &[AcctSpec], after: &[AcctSpec]) {
+fn oracle_init(rec: &mut Recorder, case_rent: (u64, u64), funder: Option<Pubkey>, funder_seeded: bool, no_funder: bool, l: &str, ans: &str, before: &[AcctSpec], after: &[AcctSpec]) {
     let Some(op) = parse_init(l) else { return };
     let (res, log) = ans.split_once(" cpis=").unwrap_or((ans, "-"));
     let t0 = find(before, &op.tgt);
@@ -588,6 +588,28 @@ fn oracle_init(rec: &mut Recorder, case_rent: (u64, u64), funder: Option<Pubkey>
             || (res == "err:Custom1001" && op.tseeds.is_none() && !t0.is_signer && !seeds_mismatch && !no_funder);
         if !(res == "ok needed=0" || excused) || before != after || log != "-" {
             rec.fail("create_if_needed_touches_initialized", &format!("{l} -> {ans}"));
+        }
+    }
+    // liveness: a fresh System-owned empty target, writable, able to sign (keypair signer or the PDA
+    // of the given seeds), and a distinct, writable, System-owned, data-less funder that can sign
+    // (outer signer or seeded) and covers the shortfall => the creation must succeed
+    {
+        let space = W + op.enc.len();
+        let tgt_can_sign = match &op.tseeds {
+            None => t0.is_signer,
+            Some(raw) => {
+                let seeds: Vec<&[u8]> = raw.0.iter().map(|s| s.as_slice()).collect();
+                raw.0.len() < 16 && raw.0.iter().all(|s| s.len() <= 32) && Pubkey::find_program_address(&seeds, &PROGRAM_ID).0 == op.tgt
+            }
+        };
+        let fresh = t0.owner == Pubkey::new_from_array([0; 32]) && t0.data.is_empty() && t0.is_writable && tgt_can_sign;
+        if let (true, Some(f), false) = (fresh, funder, no_funder) {
+            let f0 = find(before, &f);
+            let shortfall = rent_min(case_rent, space).saturating_sub(t0.lamports);
+            let funder_ok = f != op.tgt && f0.owner == Pubkey::new_from_array([0; 32]) && f0.data.is_empty() && f0.is_writable && (f0.is_signer || funder_seeded) && f0.lamports >= shortfall;
+            if funder_ok && res != "ok needed=1" {
+                rec.fail("create_on_fresh_account_fails", &format!("{l} -> {ans}"));
+            }
         }
     }
     if res == "ok needed=1" {
@@ -730,7 +752,8 @@ pub fn run_case(rec: &mut Recorder, header: &str, lines: &[String]) {
                 if is_init {
                     // cached funder: the payer is the cached one (same declared account)
                     let no_funder = l.contains(" cached ") && !case.cache_funder;
-                    oracle_init(rec, case.rent, other, no_funder, l, &ans, &before, &after);
+                    let funder_seeded = matches!(case.funder, Some((_, FunderObj::Seeded(_))));
+                    oracle_init(rec, case.rent, other, funder_seeded, no_funder, l, &ans, &before, &after);
                 } else {
                     oracle_clean(rec, case.rent, other, l, &ans, &before, &after);
                 }
@@ -900,7 +923,7 @@ pub fn run_c12(args: &Args) {
     let mut rng = Rng::new(args.seed);
     let thorough = args.thorough();
     let mut id = 0usize;
-    let nvals = if thorough { 5 } else { 2 };
+    let nvals = if thorough { 8 } else { 2 };
     for rent in RENTS {
         for ty in ["zc16", "zclist", "borsh"] {
             for if_needed in [false, true] {
@@ -918,7 +941,7 @@ pub fn run_c12(args: &Args) {
         }
     }
     // twists and PRNG-drawn mixes
-    let n = if thorough { 6000 } else { 900 };
+    let n = if thorough { 40000 } else { 900 };
     for i in 0..n {
         id += 1;
         let rent = *rng.pick(&RENTS);
@@ -1049,7 +1072,7 @@ pub fn run_c13(args: &Args) {
             }
         }
     }
-    let n = if thorough { 8000 } else { 1200 };
+    let n = if thorough { 60000 } else { 1200 };
     for _ in 0..n {
         id += 1;
         let rent = *rng.pick(&RENTS);
